@@ -135,6 +135,7 @@ Section Pts.
   Lemma span0_pts : span_pts span0. Proof. split; exact HP0. Qed.
   Lemma loc_default_pts : loc_pts loc_default. Proof. exact span0_pts. Qed.
   Lemma error_without_span_pts : expr_pts error_without_span. Proof. split; [exact loc_default_pts | exact I]. Qed.
+  Lemma unit_without_span_pts : expr_pts unit_without_span. Proof. split; [exact loc_default_pts | exact I]. Qed.
   Lemma t_span_pts : forall i tk, toks i = Some tk -> span_pts (t_span tk).
   Proof. intros i tk H. exact (Htoks i tk H). Qed.
   Lemma token_child_pts : forall p c tk, token_child toks p c = Some tk -> span_pts (t_span tk).
